@@ -352,15 +352,18 @@ class BaseTemplate:
         # the body apart from the class name.
         sha.update(b'\x00')
         sha.update(class_name)
-        digest = sha.hexdigest()
 
         filename = str(self.filename)
         if filename and filename != BaseTemplate.filename:
             # The whole name takes part (it is compiled into the
-            # module), including the extension.
-            digest = filename + '-' + digest
+            # module), including the extension.  It is hashed, too: the
+            # digest names the cache entry and a path must not end up
+            # in that name.
+            sha.update(b'\x00')
+            sha.update(hashlib.sha1(
+                filename.encode('utf-8', 'surrogatepass')).digest())
 
-        return digest
+        return sha.hexdigest()
 
     def _compile(self, body: str, builtins: Collection[str]) -> str:
         program = self.parse(body)
